@@ -83,7 +83,7 @@ func init() {
 				cse.TimeoutMS = 60000
 				cs = append(cs, cse)
 			}
-			for i, s := range []string{"blocked-stop", "parked-dispatch", "cancel-blocked-stop", "restart-rearm", "restart-from-last", "stop-at-once"} {
+			for i, s := range []string{"blocked-stop", "parked-dispatch", "cancel-blocked-stop", "restart-rearm", "restart-from-last", "stop-at-once", "double-stop"} {
 				reps := 2
 				if tier == "thorough" {
 					reps = 8
@@ -416,6 +416,51 @@ func c18Script(c *core.Case, o *core.Outcome) {
 			o.Violate(key, "function in flight when Stop returned")
 			return
 		}
+	case "double-stop":
+		// several Stop calls overlapping while the function is executing: none of them may return before it has
+		rc := &c18Rec{l: l, gate: make(chan struct{}), entered: make(chan struct{})}
+		runner, _ := raterun.New(rc.c18fn, c18Schedules(&p))
+		runner.Start(ctx)
+		select {
+		case <-rc.entered:
+		case <-time.After(10 * time.Second):
+			o.Inconc("function never invoked")
+			cancel()
+			return
+		}
+		var dones []chan struct{}
+		for i := 0; i < 3; i++ {
+			d, _ := stopInGoroutine(runner, rc)
+			dones = append(dones, d)
+			time.Sleep(time.Duration(i) * time.Millisecond)
+		}
+		time.Sleep(150 * time.Millisecond)
+		for i, d := range dones {
+			select {
+			case <-d:
+				close(rc.gate)
+				o.Violate(key, "3 overlapping Stop calls with the function executing: call %d returned while it was still executing", i+1)
+				return
+			default:
+			}
+		}
+		close(rc.gate)
+		for i, d := range dones {
+			select {
+			case <-d:
+			case <-time.After(10 * time.Second):
+				o.Violate(key+"-hang", "Stop call %d of 3 overlapping ones did not return within 10 s after the function finished", i+1)
+				return
+			}
+		}
+		// a further Stop on the stopped runner returns
+		d, _ := stopInGoroutine(runner, rc)
+		select {
+		case <-d:
+		case <-time.After(10 * time.Second):
+			o.Violate(key+"-hang", "Stop on an already stopped runner did not return within 10 s")
+			return
+		}
 	case "parked-dispatch":
 		hc := engine.NewHookCtl(c.Seed)
 		pk := hc.ParkNth("raterun.beforeDispatch", 3)
@@ -539,6 +584,9 @@ func c18Script(c *core.Case, o *core.Outcome) {
 			o.Inconc("the last schedule was not reached within 2 s")
 			return
 		}
+		// let the point at which the second schedule became current fall well into the past
+		time.Sleep(time.Duration(c.Rng("late").IntN(2*p.Scheds[1].DelayMS)) * time.Millisecond)
+		rBefore := l.Now()
 		runner.Restart()
 		rAfter := l.Now()
 		// bounded progress in the runner's own steps: 60 first-schedule invocations after the point at which
@@ -549,6 +597,24 @@ func c18Script(c *core.Case, o *core.Outcome) {
 		}
 		back := count(f0, rAfter)
 		again := count(f1, rAfter+f0)
+		// not too early either: after going back to the first schedule the next one starts after its whole start delay
+		// (timers never fire early); judged only when the first schedule visibly resumed before it
+		rc.mu.Lock()
+		firstF0, firstF1 := time.Duration(-1), time.Duration(-1)
+		for _, in := range rc.invs {
+			if in.begin > rAfter+f0 && in.freq == f1 && firstF1 < 0 {
+				firstF1 = in.begin
+			}
+			if in.begin > rAfter && in.freq == f0 && firstF0 < 0 {
+				firstF0 = in.begin
+			}
+		}
+		rc.mu.Unlock()
+		if firstF1 >= 0 && firstF0 >= 0 && firstF0 < firstF1 && firstF1 < rBefore+d1+f1 {
+			runner.Stop()
+			o.Violate(key, "Restart during the last schedule (called %v after New) went back to the first schedule, but an invocation at the next schedule's frequency began %v after the Restart call, earlier than that schedule's start delay %v + one tick %v", rBefore, firstF1-rBefore, d1, f1)
+			return
+		}
 		late := count(f0, due)
 		runner.Stop()
 		if back == 0 {
